@@ -1,4 +1,5 @@
-import json, sys
+import json, os, sys
+PNAME = os.environ.get("PATCH_NAME", "patch.diff")   # refactor_ok.diff = the correct twin of a round-6 change
 from pathlib import Path
 from concurrent.futures import ProcessPoolExecutor
 sys.path.insert(0, "/verif")
@@ -11,7 +12,7 @@ def one(arg):
     allp = sorted({p for r in core.RULES.values() for p in r.props})
     try:
         with mutate.scratch_copy() as root:
-            mutate.apply_patch(root, d / "patch.diff")
+            mutate.apply_patch(root, d / PNAME)
             res = mutate.run_props(root, allp)
     except Exception as exc:
         return str(d), prop, None, f"ERROR {exc!r}", []
@@ -27,7 +28,7 @@ if __name__ == "__main__":
     only = set(sys.argv[1:])   # e.g. C03/out/3
     for c in sorted(Path("/tmp/wt").glob("C??")):
         for k in sorted((c / "out").glob("*")):
-            if (k / "patch.diff").exists() and (not only or f"{c.name}/out/{k.name}" in only or c.name in only):
+            if (k / PNAME).exists() and (not only or f"{c.name}/out/{k.name}" in only or c.name in only):
                 args.append((str(k), c.name))
     with ProcessPoolExecutor(8) as ex:
         rows = list(ex.map(one, args))
